@@ -22,12 +22,12 @@ func run(c *core.Ctx) {
 	if evilreplay.ReplayFile(c) {
 		return
 	}
-	mc, gen := "MC_C03_quick.cfg", "Gen_C03_quick.cfg"
+	// One exhaustive TLC run per tier: the generator configuration checks every
+	// invariant of HandshakeEvil on every reachable state AND prints the terminal
+	// states (MC_C03*.cfg are the same constants without the printing).
+	gen := "Gen_C03_quick.cfg"
 	if c.Thorough() {
-		mc, gen = "MC_C03.cfg", "Gen_C03_thorough.cfg"
-	}
-	if kit.ModelCheck(c, "HandshakeEvil.tla", mc, tlc.Options{Workers: 8}) == nil {
-		return
+		gen = "Gen_C03_thorough.cfg"
 	}
 	raws := kit.Generate(c, "Gen_HandshakeEvil.tla", gen, tlc.Options{})
 	if c.IsBroken() {
